@@ -119,7 +119,13 @@ Section WithEnv.
         let r := RAlias ("HEX_REG_ALIAS_" ++ name)%string new in
         Some (LReg r (false, alias_width name)
                    (Some (if new then ce_rnew0 E r else if String.eqb name "PC" then ce_pktaddr E else ce_rold E r)))
-    | OIdent x => match lookup x (cs_vars s) with Some (t, _) => Some (LVar x t) | None => None end
+    | OIdent x =>
+        match lookup x (cs_vars s) with
+        | Some (t, _) => Some (LVar x t)
+        | None =>
+            (* dialect convention: EA and the iterators i j k are implicitly declared 32-bit unsigned locals *)
+            if existsb (String.eqb x) ["EA"; "i"; "j"; "k"] then Some (LVar x (false, 32%N)) else None
+        end
     | _ => None
     end.
 
@@ -212,6 +218,11 @@ Section WithEnv.
     | "bswap16", [x] => let v := snd (conv (false, 16%N) x) in Some (mkval (false, 16%N) ((v mod 256) * 256 + v / 256))
     | "bswap32", [x] => let v := snd (conv (false, 32%N) x) in
         Some (mkval (false, 32%N) ((v mod 256) * 16777216 + ((v / 256) mod 256) * 65536 + ((v / 65536) mod 256) * 256 + v / 16777216))
+    | "bswap64", [x] => let v := snd (conv (false, 64%N) x) in
+        Some (mkval (false, 64%N) ((v mod 256) * 72057594037927936 + ((v / 256) mod 256) * 281474976710656
+                    + ((v / 65536) mod 256) * 1099511627776 + ((v / 16777216) mod 256) * 4294967296
+                    + ((v / 4294967296) mod 256) * 16777216 + ((v / 1099511627776) mod 256) * 65536
+                    + ((v / 281474976710656) mod 256) * 256 + v / 72057594037927936))
     | _, _ => None
     end.
 
